@@ -55,9 +55,10 @@ class Session(BusSession):
         self.tok = 0
         self.age = {}
         self.optional_tokens = set()
-        for l in ('X', 'Y', 'T'):
+        for l in ('X', 'Y', 'T') + (('Z',) if params.get('systemd') else ()):
             self.connect_slot(l)
             self.take(l)
+        self.sd_owner = False          # (systemd mode) Z owns org.freedesktop.systemd1
 
     def config(self):
         # service files live in the harness run directory of this worker
@@ -74,6 +75,8 @@ class Session(BusSession):
         shutil.rmtree(self.logdir, ignore_errors=True)
         os.makedirs(self.logdir)
         stub = harness_path('vstub')
+        sd = bool(self.params.get('systemd'))
+        b.h.cmd('BUSFLAGS %d' % (16 if sd else 0))          # 16 = BUS_CONTEXT_FLAG_SYSTEMD_ACTIVATION (dbus-daemon --systemd-activation)
         helper = bool(self.params.get('helper'))
         extra = ''
         if helper:
@@ -87,7 +90,8 @@ class Session(BusSession):
             extra = '  <servicehelper>%s</servicehelper>\n' % hp
         for name in (S1, S2):
             with open(os.path.join(d, name.decode() + '.service'), 'w') as f:
-                f.write('[D-BUS Service]\nName=%s\nExec=%s %s %s\n%s' % (name.decode(), stub, self.logdir, name.decode(), 'User=root\n' if helper else ''))
+                f.write('[D-BUS Service]\nName=%s\nExec=%s %s %s\n%s%s' % (name.decode(), stub, self.logdir, name.decode(), 'User=root\n' if helper else '',
+                                                                              ('SystemdService=%s.service\n' % name.decode()) if sd else ''))
         with open(os.path.join(d, S3.decode() + '.service'), 'w') as f:
             f.write('[D-BUS Service]\nName=%s\nExec=%s/does-not-exist\n' % (S3.decode(), self.logdir))
         # held messages are subject to policy when they are finally delivered: Forbidden is refused at the recipient
@@ -107,6 +111,15 @@ class Session(BusSession):
             ops.append(['fcall', l, 0])      # a call the service's receive policy refuses
             ops.append(['call', l, 2])
             ops.append(['disc', l])
+        if self.params.get('systemd'):
+            # the harness plays systemd: it may appear on the bus (and is then handed the queued ActivationRequest signals),
+            # and it may report that starting a unit failed
+            if not self.sd_owner:
+                ops.append(['sdtake'])
+            else:
+                for i in names:
+                    if (S1, S2)[i] in self.pending:
+                        ops.append(['sdfail', i])
         for i in names:
             n = (S1, S2)[i]
             ops.append(['take', i])
@@ -170,6 +183,7 @@ class Session(BusSession):
             if line.startswith('pending '):
                 f = line.split(' ')
                 out[f[1].encode()] = int(f[2].split('=')[1])
+        out.pop(b'org.freedesktop.systemd1', None)      # (systemd mode) the bus's own wait for systemd to appear
         return out
 
     def judge(self, want, out, desc, deliver_order=None):
@@ -260,14 +274,21 @@ class Session(BusSession):
             else:
                 first = name not in self.pending
                 self.pending.setdefault(name, []).append((kind, l, s, tok if kind in ('call', 'fcall') else None))
-                if first:
+                if self.params.get('systemd'):
+                    # handed to systemd: no process of ours is started; the request waits for the name, a failure report
+                    # from systemd, or the start timeout
+                    if first:
+                        self.age[name] = 0
+                    self.hit('activation-via-systemd' + ('' if first else '-joined'))
+                    self.settle()
+                elif first:
                     self.started[name] = self.started.get(name, 0) + 1
                     self.running[name] = True
                     self.age[name] = 0
                     self.hit('activation-started')
                 else:
                     self.hit('activation-joined')
-                if not self.settle(want_started={name: self.started[name]}):
+                if not self.params.get('systemd') and not self.settle(want_started={name: self.started[name]}):
                     out.append(Violation('service-not-started', 'spawn', '%s: the start log does not show start #%d of %s' % (desc, self.started[name], name.decode()), None))
         elif kind == 'take':
             name = (S1, S2)[op[1]]
@@ -292,6 +313,33 @@ class Session(BusSession):
                         want.setdefault(w[1], []).append(('ret', w[2], (1,)))       # DBUS_START_REPLY_SUCCESS
                 self.age.pop(name, None)
                 self.hit('name-taken')
+        elif kind == 'sdtake':
+            s, rep = self.method('Z', 'RequestName', [R.S(b'org.freedesktop.systemd1'), R.U(4)])
+            self.settle()
+            if rep is None or rep.kind != R.MT_RETURN or rep.args() != [1]:
+                out.append(Violation('take-name-failed', 'RequestName', '%s answered %r' % (desc, rep), None))
+                return out
+            self.sd_owner = True
+            # whatever was waiting for systemd to appear is handed to it now: one ActivationRequest per pending activation
+            reqs = [o for o in self.take('Z') if o.kind == R.MT_SIGNAL and o.member == b'ActivationRequest']
+            units = sorted(o.args()[0] for o in reqs)
+            wantu = sorted(n + b'.service' for n in self.pending)
+            # (a request for an activation that has meanwhile ended - name taken, timed out - may still be in the queue: the
+            # bus cannot recall it and the property does not ask it to; every activation still pending must be among them, once)
+            known = {n + b'.service' for n in (S1, S2)}
+            if any(units.count(u) != 1 for u in wantu) or any(u not in known for u in units):
+                out.append(Violation('activation-request', 'systemd', '%s: systemd was asked to start %r, pending activations are %r' % (desc, units, wantu), None))
+            self.hit('systemd-appears')
+        elif kind == 'sdfail':
+            name = (S1, S2)[op[1]]
+            c = self.slots['Z']
+            ser = self.bus.next_serial(c)
+            m = R.signal(ser, R.BUS_PATH, b'org.freedesktop.systemd1.Activator', 'ActivationFailure',
+                         [R.S(name + b'.service'), R.S(b'org.freedesktop.systemd1.UnitFailed'), R.S(b'no such unit')], dest=R.BUS)
+            self.send('Z', m)
+            self.settle()
+            self.waiters_expect_error(name, want)
+            self.hit('systemd-reports-failure')
         elif kind == 'takeother':
             self.method('T', 'RequestName', [R.S(b'com.example.Other'), R.U(4)])
             self.settle()
@@ -604,13 +652,20 @@ def run(ctx):
         # the same through a <servicehelper>, whose exit statuses 1..9 each stand for an error of their own
         with ctx.sub_budget(0.9):
             st3 = explore.bfs(ctx, FACTORY, {'small': True, 'helper': True}, max_depth=3, ops_chunk=6)
-        st2 = dict(st2, states=st2['states'] + st3['states'], transitions=st2['transitions'] + st3['transitions'])
+        # and with the start handed to systemd (--systemd-activation, SystemdService=): the harness plays systemd, which may
+        # appear late, report a failure, or stay silent until the start timeout
+        with ctx.sub_budget(0.95):
+            st4 = explore.bfs(ctx, FACTORY, {'small': True, 'systemd': True}, max_depth=3, ops_chunk=6)
+        st2 = dict(st2, states=st2['states'] + st3['states'] + st4['states'], transitions=st2['transitions'] + st3['transitions'] + st4['transitions'])
+        st = dict(st, via_systemd={'states': st4['states'], 'transitions': st4['transitions'], 'completed_depth': st4['completed_depth']})
         st = dict(st, via_helper={'states': st3['states'], 'transitions': st3['transitions'], 'completed_depth': st3['completed_depth']})
         st = dict(st, states=st['states'] + st2['states'], transitions=st['transitions'] + st2['transitions'], two_names={'states': st2['states'], 'transitions': st2['transitions'], 'completed_depth': st2['completed_depth']})
     else:
         st = explore.bfs(ctx, FACTORY, {'small': False}, max_depth=depth, ops_chunk=6)
         st3 = explore.bfs(ctx, FACTORY, {'small': False, 'helper': True}, max_depth=4, ops_chunk=6)
         st = dict(st, states=st['states'] + st3['states'], transitions=st['transitions'] + st3['transitions'], via_helper={'states': st3['states'], 'transitions': st3['transitions'], 'completed_depth': st3['completed_depth']})
+        st4 = explore.bfs(ctx, FACTORY, {'small': False, 'systemd': True}, max_depth=4, ops_chunk=6)
+        st = dict(st, states=st['states'] + st4['states'], transitions=st['transitions'] + st4['transitions'], via_systemd={'states': st4['states'], 'transitions': st4['transitions'], 'completed_depth': st4['completed_depth']})
     cases = helper_cases()
     workdir = os.path.join(vbox.RUN_ROOT, 'helper')
     os.makedirs(workdir, exist_ok=True)
@@ -632,7 +687,7 @@ def run(ctx):
     ctx.coverage.update({
         'states': st['states'], 'transitions': st['transitions'] + nhelper, 'traces_validated_against_impl': st['transitions'] + nhelper,
         'activation_histories': {'states': st['states'], 'transitions': st['transitions'], 'completed_depth': st['completed_depth'], 'fixpoint': st['fixpoint']},
-        'helper_invocations': nhelper, 'helper_executions': nran, 'two_names_variant': st.get('two_names'), 'via_servicehelper': st.get('via_helper'),
+        'helper_invocations': nhelper, 'helper_executions': nran, 'two_names_variant': st.get('two_names'), 'via_servicehelper': st.get('via_helper'), 'via_systemd_activation': st.get('via_systemd'),
         'bound': 'bus: 2 senders, %d activatable names + 1 with a missing binary, take-name / take-other-name / stub exit 0,1,SIGSEGV / start timeout / disconnect, BFS depth %d; helper: %d (name x layout x Name x Exec form x User x duplicate-section) combinations' %
                  (1 if quick else 2, depth, nhelper),
     })
